@@ -71,7 +71,7 @@ package sliceio
 //@   ensures  at-least-length-and-checksum: implies(err == nil, wclock >= old(wclock) + 2 + len(f.data))
 //@   ensures  never-eof: err != EOF
 //@   ghost_ensures e.nwrites == old(e.nwrites) + 1 && e.lastWErr == err && e.lastOff == f.off && e.lastLen == f.len && e.encw == old(e.encw)
-//@   modifies wclock, wtok, e.crc.hstart, encCalls, lastEncCol, lastEncLo, lastEncHi
+//@   modifies wclock, wtok, e.crc.hstart, encCalls, lastEncCol, lastEncLo, lastEncHi, e.nwrites, e.lastWErr, e.lastOff, e.lastLen
 //@   loop 1 invariant 0 <= col && col <= len(f.data) && wclock >= old(wclock) + 1 + col && e.crc.hstart == old(wclock) && e.crc.hside == 0 && wtok[old(wclock) + 1] == tokOf(boxed(f.len, any))
 
 //@ func sliceio.(*decodingReader).decode (f) (err)
